@@ -68,13 +68,11 @@ structure FrQ (P : Qp) (i : Nat) (fs ft : Frame) : Prop where
   lk : ∀ n, ¬ P.D i n → lookupStore fs.store n = (lookupStore ft.store n).map (ren P.σ)
   /-- … and holds a clean value -/
   cl : ∀ n v, ¬ P.D i n → lookupStore ft.store n = some v → clean P v
-  /-- a dirty binding is one the purity test does not trust: it exists, holds a value that is neither a
-  reference nor a function, under a name that is not all-caps.  (Since repo fix 103fa2c the test distrusts more than
-  this: a FUNCTION held by a variable of a non-root frame is a miss too (`Trusted` in MemoFootprint.lean demands depth 0).
-  The simulation does not need those bindings dirty - the two runs may still only differ in non-function values -, so the
-  determinism statement is unchanged and remains true: it is not the strongest one the repaired code admits.) -/
+  /-- a dirty binding is one the purity test does not trust: it exists, under a name that is not all-caps, and holds a
+  value that is not a reference and is not a function of a depth-0 frame (since repo fix 103fa2c a FUNCTION held by a
+  variable of a non-root frame is a miss too: `Trusted` in MemoFootprint.lean demands depth 0) -/
   dirty : ∀ n, P.D i n → isConstant n = false ∧
-    ∃ v, lookupStore ft.store n = some v ∧ notRef v = true ∧ isFuncObj v = false
+    ∃ v, lookupStore ft.store n = some v ∧ notRef v = true ∧ (isFuncObj v = false ∨ ft.depth ≠ 0)
   /-- counters: new frames run in lockstep, old frames keep their initial offset -/
   missNew : P.σ.n0 ≤ i → fs.getMiss = ft.getMiss ∧ fs.cantCache = ft.cantCache
   missOld : i < P.σ.n0 → fs.getMiss + P.mt i = ft.getMiss + P.ms i
@@ -308,6 +306,32 @@ theorem Loud.ite {e : Nat} {c : Prop} [Decidable c] {a b : M β} (ha : c → Lou
 def LoudAt (e : Nat) (y : M β) (t : St) : Prop := ∀ b t', runM y t = (.ok b, t') → missOf t e < missOf t' e
 
 theorem Loud.at {e : Nat} {y : M β} (h : Loud e y) (t : St) : LoudAt e y t := h t
+
+theorem SimQ.loudAt {P : Qp} {x : M α} {y : M β} {s t : St} {Q : α → β → Prop} (h : LoudAt P.e y t) : SimQ P x y s t Q :=
+  SimQ.of_loud (fun b t' hy => Nat.ne_of_gt (h b t' hy))
+
+theorem LoudAt.modifyFrame_bind {e i : Nat} {g : Frame → Frame} {k : Unit → M γ} {t : St}
+    (hm : ∀ f, f.getMiss ≤ (g f).getMiss)
+    (h : ∀ f, t.frames[i]? = some f → LoudAt e (k ()) { t with frames := t.frames.setIfInBounds i (g f) }) :
+    LoudAt e (modifyFrame i g >>= k) t := by
+  intro b t' hr
+  cases hf : t.frames[i]? with
+  | none =>
+    unfold Grol.E.modifyFrame at hr
+    rw [runM_bind, runM_bind, runM_getFrame_none hf] at hr
+    cases hr
+  | some f =>
+    rw [runM_bind, runM_modifyFrame hf] at hr
+    have h1 := h f hf b t' hr
+    rw [missOf_setIfInBounds t i f _ hf] at h1
+    by_cases hei : e = i
+    · subst hei
+      simp only [if_true] at h1
+      have : missOf t e = f.getMiss := by unfold missOf; rw [hf]
+      have := hm f
+      omega
+    · simp only [hei, if_false] at h1
+      exact h1
 
 theorem LoudAt.bind_read {e : Nat} {y : M β} {g : β → M γ} {t : St} {b : β} (hy : runM y t = (.ok b, t))
     (h : LoudAt e (g b) t) : LoudAt e (y >>= g) t := by
